@@ -23,7 +23,37 @@ func (rt Routes) Less(i, j int) bool {
 	// comes first for the case-insensitive matcher
 	li, lj := strings.ToLower(rt[i].Path), strings.ToLower(rt[j].Path)
 	if li != lj {
-		return lj < li
+		return pathLess(lj, li)
 	}
-	return rt[j].Path < rt[i].Path
+	return pathLess(rt[j].Path, rt[i].Path)
+}
+
+// pathLess orders paths byte by byte like '<' does, except that the wildcard
+// characters of the glob matcher go before all other characters. In byte
+// order '*' goes after ! " # $ % & ' ( ) and '?' after the digits: sorted in
+// reverse, '/odata/*' came before '/odata/$metadata' and '/api/v?*' before
+// '/api/v1/users*', and the catch-all pattern took the requests of the longer
+// one. For the prefix matchers every order in which a path goes after its
+// prefixes does.
+func pathLess(a, b string) bool {
+	for k := 0; k < len(a) && k < len(b); k++ {
+		if ra, rb := pathRank(a[k]), pathRank(b[k]); ra != rb {
+			return ra < rb
+		}
+	}
+	return len(a) < len(b)
+}
+
+func pathRank(c byte) int {
+	switch c {
+	case '*':
+		return 0
+	case '?':
+		return 1
+	case '[':
+		return 2
+	case '{':
+		return 3
+	}
+	return int(c) + 4
 }
